@@ -269,7 +269,7 @@ func setStr(m map[string]bool) string {
 func init() {
 	register("c16", "no lost wake-ups: event handlers and worker requeue discipline", func([]string) int {
 		rep := explore.NewReport("C16", "model_checking")
-		rep.Rule = "exhaustive event shapes on the real handlers registered by the real constructor: sets web (app=web) and db (tier=db, or overlapping app=web) in the lister; pod shapes = owner{none, web right UID, web stale UID, ReplicaSet named web, non-controller ref, db, unknown set} x labels{web, db, both, unrelated, nil} x terminating; events = add(shape), update(old shape x new shape x same/different resourceVersion), delete(object), delete(tombstone with pod), delete(tombstone with junk), delete(junk); set add/update/delete/tombstone; worker = every success/failure sequence of length <=4 and every run of 5..40 consecutive failures followed by a success (failure = InternalError on the first API call; the recording queue counts requeues like a real rate limiter). Oracle: required subset of enqueued subset of allowed keys by a reference function written from the property; failure => AddRateLimited and no Forget, success => Forget, Done always. Non-trivial = the reference requires or allows at least one key."
+		rep.Rule = "exhaustive event shapes on the real handlers registered by the real constructor: sets web (app=web) and db (tier=db, or overlapping app=web) in the lister; pod shapes = owner{none, web right UID, web stale UID, ReplicaSet named web, non-controller ref, db, unknown set} x labels{web, db, both, unrelated, nil} x terminating; events = add(shape), update(old shape x new shape x same/different resourceVersion), delete(object), delete(tombstone with pod), delete(tombstone with junk), delete(junk); set add / delete / tombstone and update by every kind of edit and its undo (pause annotation, delete-slots, other annotation, label, replicas, template, status, deletion timestamp, finalizer, owner reference); worker = every success/failure sequence of length <=4 and every run of 5..40 consecutive failures followed by a success (failure = InternalError on the first API call; the recording queue counts requeues like a real rate limiter). Oracle: required subset of enqueued subset of allowed keys by a reference function written from the property; failure => AddRateLimited and no Forget, success => Forget, Done always. Non-trivial = the reference requires or allows at least one key."
 		rep.Assumptions = []string{"selectors in the lister are valid ones", "orphan update without label/owner change and orphan delete are don't-care (property does not fix them)"}
 		var owners = []string{"none", "A", "Astale", "Akind", "Anonctrl", "B", "C"}
 		var labs = []string{"A", "B", "both", "none", "nil"}
@@ -354,6 +354,36 @@ func init() {
 				s2 := s.DeepCopy()
 				s2.ResourceVersion = "9"
 				s2.Status.Replicas = 3
+				// every kind of edit, one at a time (resourceVersion always moves)
+				edits := map[string]func(x *asv1.StatefulSet){
+					"pause on":           func(x *asv1.StatefulSet) { x.Annotations = map[string]string{"paused-reconcile": "true"} },
+					"slots":              func(x *asv1.StatefulSet) { x.Annotations = map[string]string{"delete-slots": "[0]"} },
+					"other annotation":   func(x *asv1.StatefulSet) { x.Annotations = map[string]string{"note": "x"} },
+					"label":              func(x *asv1.StatefulSet) { x.Labels = map[string]string{"team": "x"} },
+					"replicas":           func(x *asv1.StatefulSet) { r := int32(4); x.Spec.Replicas = &r; x.Generation++ },
+					"template":           func(x *asv1.StatefulSet) { x.Spec.Template.Spec.Containers[0].Image = "img:T2"; x.Generation++ },
+					"status only":        func(x *asv1.StatefulSet) { x.Status.ReadyReplicas = 1 },
+					"deletion timestamp": func(x *asv1.StatefulSet) { x.DeletionTimestamp = &gen.T0 },
+					"finalizer":          func(x *asv1.StatefulSet) { x.Finalizers = []string{"keep"} },
+					"owner reference": func(x *asv1.StatefulSet) {
+						x.OwnerReferences = []metav1.OwnerReference{{Kind: "X", Name: "x", UID: "u"}}
+					},
+				}
+				var names []string
+				for n := range edits {
+					names = append(names, n)
+				}
+				sort.Strings(names)
+				for _, n := range names {
+					cur := s.DeepCopy()
+					cur.ResourceVersion = "10"
+					edits[n](cur)
+					fire("update set "+s.Name+": "+n, e, func() { sh.OnUpdate(s, cur) })
+					// and the edit undone (e.g. the pause annotation removed again)
+					back := s.DeepCopy()
+					back.ResourceVersion = "11"
+					fire("update set "+s.Name+": undo "+n, e, func() { sh.OnUpdate(cur, back) })
+				}
 				fire("add set "+s.Name, e, func() { sh.OnAdd(s, false) })
 				fire("update set "+s.Name, e, func() { sh.OnUpdate(s, s2) })
 				fire("update set (same rv) "+s.Name, e, func() { sh.OnUpdate(s, s) })
